@@ -9,7 +9,7 @@ from .. import dagsweep as D
 from .. import sweepprops as S
 
 LEVEL = 'proof'
-NEEDS = ['PyRt', 'IdentifyGenLemmas', 'IdentifyGenConf', 'IdentifyGenIM', 'IdentifyGenConfProofs', 'IdentifyGenIMProofs', 'InstrumentsGen', 'SFIdentify', 'Extracted', 'SourceFacts', 'Base', 'Digraph', 'DigraphProofs', 'Identify', 'IdentifyProofs', 'DSep', 'DSepProofs', 'CorrDag']
+NEEDS = ['CorrIdentifyGen', 'CorrIdentifyGenIM', 'PyRt', 'IdentifyGenLemmas', 'IdentifyGenConf', 'IdentifyGenIM', 'IdentifyGenConfProofs', 'IdentifyGenIMProofs', 'InstrumentsGen', 'SFIdentify', 'Extracted', 'SourceFacts', 'Base', 'Digraph', 'DigraphProofs', 'Identify', 'IdentifyProofs', 'DSep', 'DSepProofs', 'CorrDag']
 
 WORKER = r'''
 import sys, json, logging
@@ -79,6 +79,8 @@ def hash_seed_stream(run, tier, seed):
 
 
 def check(run, tier, seed):
+    from .. import gencorr
+    gencorr.gen_correspondence(run, 'C19', tier, seed)
     S.sweep_property(run, tier, seed, 'C19',
                      describe='identify_instruments and identify_mediators for every ordered pair: compared with the model (proved to meet the '
                               'declarative mediator / instrument characterisations); every returned instrument is checked by the Coq predicate '
